@@ -91,33 +91,62 @@ func (a *allocInfo) sitesIn(f *ssa.Function) []allocSite {
 // feasibleReturns returns the Return instructions of g reachable when parameters with constant actuals are folded.
 func feasibleReturns(g *ssa.Function, consts map[*ssa.Parameter]constant.Value) []*ssa.Return {
 	var rets []*ssa.Return
-	seen := map[*ssa.BasicBlock]bool{}
-	work := []*ssa.BasicBlock{g.Blocks[0]}
+	type item struct{ b, pred *ssa.BasicBlock }
+	seen := map[item]bool{}
+	seenRet := map[*ssa.Return]bool{}
+	work := []item{{g.Blocks[0], nil}}
 	for len(work) > 0 {
-		b := work[0]
+		it := work[0]
 		work = work[1:]
-		if seen[b] {
+		if seen[it] {
 			continue
 		}
-		seen[b] = true
+		seen[it] = true
+		b := it.b
 		last := b.Instrs[len(b.Instrs)-1]
+		push := func(succs ...*ssa.BasicBlock) {
+			for _, s := range succs {
+				work = append(work, item{s, b})
+			}
+		}
 		switch t := last.(type) {
 		case *ssa.Return:
-			rets = append(rets, t)
+			if !seenRet[t] {
+				seenRet[t] = true
+				rets = append(rets, t)
+			}
 		case *ssa.If:
-			if bo, ok := t.Cond.(*ssa.BinOp); ok {
+			cond := t.Cond
+			// a short-circuit condition materialised as a phi (a && b as a switch case): the value that arrives over
+			// the edge this path came in by
+			if phi, ok := cond.(*ssa.Phi); ok && phi.Block() == b && it.pred != nil {
+				for i, pr := range b.Preds {
+					if pr == it.pred {
+						cond = phi.Edges[i]
+					}
+				}
+			}
+			if k, ok := cond.(*ssa.Const); ok && k.Value != nil && k.Value.Kind() == constant.Bool {
+				if constant.BoolVal(k.Value) {
+					push(b.Succs[0])
+				} else {
+					push(b.Succs[1])
+				}
+				continue
+			}
+			if bo, ok := cond.(*ssa.BinOp); ok {
 				if val, ok := foldCmp(bo, consts); ok {
 					if val {
-						work = append(work, b.Succs[0])
+						push(b.Succs[0])
 					} else {
-						work = append(work, b.Succs[1])
+						push(b.Succs[1])
 					}
 					continue
 				}
 			}
-			work = append(work, b.Succs...)
+			push(b.Succs...)
 		default:
-			work = append(work, b.Succs...)
+			push(b.Succs...)
 		}
 	}
 	return rets
